@@ -517,6 +517,18 @@ def run(ctx):
 
     # ------------------------------------------------------------------ R6
     ctx.rule("C10.R6", "each resuming command installs exactly its own stepping state", floor=4)
+    # ... and leaves the decision to proceed to the state dispatch: a command arm that answers `Proceed` itself skips the first look at the
+    # instruction under the PC (the RET that `step out` is waiting for, the breakpoint and HALT tests of that cycle)
+    ctx.instance(1)
+    own_proceed = []
+    for b_, i_, s_ in disp.assigns():
+        e_ = disp.rvalue_expr(s_["r"], 6)
+        if s_["p"]["l"] == 0 and any(x[0] == "agg" and x[1][0] == "adt" and str(x[1][1]).endswith("debugger::Action") and x[1][2] == "Proceed" for x in expr_walk(e_)):
+            own_proceed.append(s_)
+    ctx.oblig(not own_proceed, {"dispatcher returns Proceed itself": len(own_proceed)}, "never")
+    for s_ in own_proceed:
+        ctx.violation("dispatcher-proceeds", sp_file_line(s_.get("sp")), "a command arm returns `Proceed` itself instead of handing the installed state to the state dispatch: "
+                      "the instruction under the PC is executed without having been examined (a RET under `step out`, a breakpoint, a HALT)")
     # which variant belongs to which command was derived for R4 (role_of); a command that may install two different states has no entry there
     WANT = {{"continue": "Continue", "stepover": "StepOver", "stepinto": "StepInto", "finish": "StepOut"}[r]: v for v, r in role_of.items()}
     for arm, want in sorted(WANT.items()):
